@@ -1,6 +1,6 @@
 """Engine K: run Kani harnesses from the overlay on the scratch copy, classify, extract counterexamples."""
 import os, re, shutil, time
-from common import run, log, Undecided, NCPU, CACHE, VERIF
+from common import run, log, Undecided, BuildFailed, overlay_files_in_errors, NCPU, CACHE, VERIF
 
 KANI_FLAGS = ["-Z", "function-contracts", "-Z", "stubbing", "--output-format", "terse"]
 
@@ -136,7 +136,7 @@ def run_harnesses(scratch, harnesses, timeout, jobs=None, extra=None):
         for i, l in enumerate(lines):
             if re.match(r"^error(\[E\d+\])?:", l) and "could not compile" not in l and "Failed to execute" not in l:
                 blocks.append("\n".join(lines[i:i + 14]))
-        raise Undecided("kani build failed:\n%s" % "\n---\n".join(blocks[:5]))
+        raise BuildFailed("kani build failed:\n%s" % "\n---\n".join(blocks[:5]), overlay_files_in_errors(out))
     m = re.search(r"Failed to match the following harness", out)
     if m or "no harnesses matched" in out.lower():
         raise Undecided("kani did not find harnesses: %s" % _tail(out, 15))
